@@ -12,8 +12,8 @@
    to the value the generated JavaScript expression has in MiniJS, for every
    state / environment pair related by env_rel (each Soy variable is in the
    generated variable the generator's scope maps it to, or in opt_data).
-   Of the STATEMENT stages print / if / let / switch / foreach / for-range are proved (below); calls,
-   the template wrapper, css and msg are NOT: they are covered by translation validation only
+   Of the STATEMENT stages print / if / let / switch / foreach / for-range / css are proved (below); calls,
+   the template wrapper and msg are NOT: they are covered by translation validation only
    (go/cmd/soyverif/c04.go: every generated program is translated by the real
    soyjs.Write, run by node with soyutils.js and compared with the Go render).
    Stages kept for the record:
@@ -32,7 +32,10 @@
      gen_correct_partial_for_range : {for $x in range(n)} / range(a, n) / range(a, n, s) with a positive step and n - a within
                                   2^53, same loop functions -- proved below (xInit_n / xStep_n / xLimit_n =
                                   Math.max(0, Math.ceil((n - xInit_n) / xStep_n)), x_n = xInit_n + xIndex_n * xStep_n)
+     gen_correct_partial_css    : {css sfx} / {css e, sfx} with a scalar e -- proved below (same step)
      gen_correct_partial_calls  : call / param / data=           -- not proved
+     gen_correct_partial_template : the template wrapper (function header, opt_data defaulting, var output, return) and
+                                  with it a whole-template theorem -- not proved
      gen_correct_partial_msg    : msg / plural with a bundle     -- not proved
    MiniJS idealises JavaScript: numbers are integers (a result beyond 2^53 is
    OutOfModel), objects have no prototype chain, the operators are defined on
@@ -237,6 +240,16 @@ Theorem C04_gen_correct_partial_for_range : forall cf o lv st je jst x a1 rest b
 Proof. exact gen_correct_partial_for_range. Qed.
 Print Assumptions C04_gen_correct_partial_for_range.
 
+(* {css sfx} / {css e, sfx} (e of the expression subset with a scalar value): one Write of String(e) + "-" + sfx on the Go
+   side, the two statements  buf += e + '-';  buf += 'sfx';  on the JavaScript side *)
+Theorem C04_gen_correct_partial_css : forall cf o lv st je jst e sfx fuel text env' old,
+  c_oblig cf = [] -> (sdepth (SCss e sfx) < fuel)%nat -> sim cf st je jst old ->
+  swf lv (SCss e sfx) = true -> lvok lv (j_scope jst) ->
+  sout (c_ij cf) (mode st) go_print_text (sc_lookup (ctx st)) (SCss e sfx) = Some (text, env') ->
+  sim_step cf o lv st je jst (SCss e sfx) fuel text env' old.
+Proof. exact gen_correct_partial_css. Qed.
+Print Assumptions C04_gen_correct_partial_css.
+
 (* the JavaScript side alone says more: every variable other than the buffer whose name, read as a generated name,
    has a counter up to the generator's is left alone (so nothing an enclosing block relies on is overwritten) *)
 Theorem C04_js_exec_correct : forall ij mode buf s sc n env je old text env' j sc' n',
@@ -437,5 +450,19 @@ Example C04_for_range_nonvacuous :
       output += ';';
     }
   }
+".
+Proof. vm_compute. repeat split; reflexivity. Qed.
+
+(* {css $x, bar}{css foo} with x = 4 in the generated variable x_3 *)
+Example C04_css_nonvacuous :
+  (match bout None 1 go_print_text ex_env (BCons (SCss (Some (CVar (b "x") [])) (b "bar")) (BCons (SCss None (b "foo")) BNil)) with Some t => Some t | None => None end)
+    = Some (b "4-barfoo")
+  /\ (match jb_exec {| je_vars := [(b "output", JStr []); (b "x_3", JNum 4)]; je_data := JObj [] |}
+                      (fst (bgen 1 (b "output") ex_sc2 3 (BCons (SCss (Some (CVar (b "x") [])) (b "bar")) (BCons (SCss None (b "foo")) BNil)))) with
+      | Ok je' => assoc_s (b "output") (je_vars je') | _ => None end) = Some (JStr (b "4-barfoo"))
+  /\ render_chunks is_print_tbl (bprint 1 (fst (bgen 1 (b "output") ex_sc2 3 (BCons (SCss (Some (CVar (b "x") [])) (b "bar")) (BCons (SCss None (b "foo")) BNil))))) = b
+"  output += x_3 + '-';
+  output += 'bar';
+  output += 'foo';
 ".
 Proof. vm_compute. repeat split; reflexivity. Qed.
